@@ -64,6 +64,9 @@ pub fn close_position(
     // this should always be a valid operation as calculate_weight will return >= amount
     let weight_to_reduce = calculate_weight(unbonding_duration, to_close_position.amount)?;
 
+    let snapshot_epoch = helpers::get_current_epoch(deps.as_ref())?;
+    helpers::snapshot_global_weight_if_missing(deps.storage, snapshot_epoch)?;
+
     // reduce the global weight
     GLOBAL_WEIGHT.update::<_, StdError>(deps.storage, |global_weight| {
         Ok(global_weight.saturating_sub(weight_to_reduce))
